@@ -1,0 +1,24 @@
+//go:build verif
+
+package refresher
+
+import (
+	"context"
+
+	"github.com/jonboulle/clockwork"
+	"github.com/rs/zerolog"
+
+	"github.com/sergeii/swat4master/internal/core/usecases/refreshservers"
+)
+
+// VerifRefresh runs one refresh cycle exactly as the component's ticker loop does,
+// so that the verification harness exercises the component's own request construction.
+func VerifRefresh(
+	ctx context.Context,
+	clock clockwork.Clock,
+	logger *zerolog.Logger,
+	uc refreshservers.UseCase,
+	cfg Config,
+) {
+	refresh(ctx, clock, logger, uc, cfg)
+}
